@@ -31,8 +31,12 @@ RULE = (
     "Ctrl1/Ctrl2/EFF values, NPDU length {consistent, +1, -1, 0, 255, random}, every TPCI octet, raw APDUs over the "
     "10-bit APCI space with 0..254 data octets, M_Prop frames (valid/unknown object types, noe=0 error forms, "
     "lengths 0..12), truncations, random bytes. Non-trivial = message code is L_Data.req/.con/.ind or "
-    "M_PropRead/Write/Info and at least one more octet follows, i.e. the frame reaches CEMILData / CEMIMPropInfo parsing."
+    "M_PropRead/Write/Info and at least one more octet follows, i.e. the frame reaches CEMILData / CEMIMPropInfo parsing"
+    "; thorough tier only: atheris/libFuzzer campaigns (vk/fuzz.py, fuzz/c12_target.py; 8 processes, half from an empty corpus, half from "
+    "a seed corpus of valid inputs, -runs budget, -seed derived from VERIF_SEED) with this same oracle inside the target: input = the raw cEMI octets, oracle_full() (parser + both receive paths with their guards) after one parse under a sys.monitoring step budget (C12:nontermination:*); each "
+    "execution counts as one evaluation, it is non-trivial by the same rule (reaches CEMILData / CEMIMPropInfo parsing, measured in the target), distinct by input hash"
 )
+FUZZ_RUNS = 150_000  # executions per campaign (thorough tier)
 ASSUMPTIONS = [
     "declared errors are exactly xknx.exceptions.CouldNotParseCEMI and UnsupportedCEMIMessage (docstring of handle_raw_cemi)",
     "the guard is observed at cemi_handler.logger.exception / device_management_connection.logger.exception; "
@@ -227,6 +231,10 @@ def run(ctx) -> None:
     shards = ctx.n(8, 16)
     per = ctx.n(1000, 24000)
     parallel(ctx, _gen_shard, [(per,)] * shards)
+    if not ctx.quick:  # thorough tier only: coverage-guided campaigns, oracle inside the target
+        from vk.fuzz import run_fuzz
+
+        run_fuzz(ctx, PROPERTY, runs=FUZZ_RUNS, jobs=8)
 
 
 def replay(ctx, case) -> None:
